@@ -71,6 +71,11 @@ claimed = {
    note="PARTIAL: typed nil sources, NULL elements in containers and their refusal in protocol v2 run through package reflect (not applicable to this technique); the remaining scalar codecs are not covered.",
    technique="contract-based deductive verification: lemma functions and postconditions, forallT expansion",
    design="DESIGN.md §4 C14"),
+ "C18": dict(
+   text="Proof of a write-frame condition on every non-reflective function of the codec packages (primitive, datatype, message, frame, segment, crc, compression, datacodec: 816 functions): each store, map update, in-place append, copy, stream write, and each permission to write handed to a callee, targets memory the call allocated itself or memory owned by the caller (the frame, message, value, destination, reader or writer passed in and what is reachable from them) - never the codec/compressor/data-type receiver, a package-level variable, or anything loaded from those. Hence calls on distinct frames or values share only memory nobody writes, so no interleaving can change a call's result or race on library state; a scratch buffer, cache or counter added to a codec, a compressor or a package fails a named 'share' obligation for all inputs, which no sequential test and no finite stress run shows.",
+   note="PRECONDITION assumed (the property's 'distinct frames or values'): caller-owned arguments do not alias codec state, globals or other goroutines' arguments. NOT covered: interleavings as such / the race detector's view; functions that manipulate values through package reflect (container codecs, injectors/extractors) and readCollection/writeCollection/Map/Tuple/Udt; third-party lz4/snappy internals and the standard library (trusted goroutine-safe); SetBodyCompressor (configuration call, writes its receiver by design); package initialisers. Read-only-parameter exemptions come from a conservative syntactic analysis.",
+   technique="contract-based deductive verification: generated frame (ownership) contract per function over go/ssa VCs with an uninterpreted ownership predicate, checked at stores and call sites, discharged by z3/cvc5",
+   design="DESIGN.md §11 C18"),
 }
 
 not_applicable = {
